@@ -125,7 +125,7 @@ class Prop(BaseProp):
                 tree.dirs.add("zzz_last")
                 tree.files["zzz_last/fine.cmake"] = cmake_text("zzz_last/fine.cmake")
             # (the directory the input lives in may carry characters that are special in glob patterns: a path is a path)
-            wname = rng.choice(["w", "w", "w", "w[x86_64]", "w*s", "w?q", "w{a,b}"])
+            wname = rng.choice(["w", "w", "w", "w[x86_64]", "w*s", "w?q", "w{a,b}", "w:v2", "~w"])
             res.see("input_parent_directory_names", wname)
             inp_dir = os.path.join(sb, wname, "proj")
             tree.write(inp_dir)
@@ -151,11 +151,15 @@ class Prop(BaseProp):
             extra = pool[(idx // 11 + rng.randrange(3)) % len(pool)]
             run_cwd = os.path.join(sb, "started_here")       # cmake (and the direct command line) run from here,
             os.makedirs(run_cwd)                              # the driver script lives one level up
-            out1 = os.path.join(sb, "out_cmake")
-            out2 = os.path.join(sb, "out_cli")
+            # (output names may carry characters that mean something to CMake's path functions: ':' is a list separator
+            #  for file(TO_CMAKE_PATH), '~' is expanded, a backslash becomes a slash)
+            osfx = rng.choice(["", "", "", ":2026-10-03T04:30", "~1", " and blank"])
+            res.see("output_name_suffixes", osfx)
+            out1 = os.path.join(sb, "out_cmake" + osfx)
+            out2 = os.path.join(sb, "out_cli" + osfx)
             rel_out = rng.random() < 0.35
             if rel_out:
-                out1_arg, out2_arg = "rel_out_cmake", "rel_out_cli"
+                out1_arg, out2_arg = "rel_out_cmake" + osfx, "rel_out_cli" + osfx
                 out1, out2 = os.path.join(run_cwd, out1_arg), os.path.join(run_cwd, out2_arg)
                 res.count("relative_output_runs")
             else:
@@ -182,7 +186,7 @@ class Prop(BaseProp):
                 extra0 = extra
                 res.count("second_call_same_arguments_settings_file_edited")
             first_call = "" if extra0 is None else \
-                f'cminx_gen_rst({q(target)} {q(out1 if not rel_out else "rel_out_cmake")} {" ".join(q(e) for e in extra0)})\n'
+                f'cminx_gen_rst({q(target)} {q(out1 if not rel_out else out1_arg)} {" ".join(q(e) for e in extra0)})\n'
             if same_args:
                 first_call += f'file(WRITE {q(scfg)} {q(cfg_second)})\n'
             exe = shim
@@ -202,7 +206,7 @@ class Prop(BaseProp):
             with open(drv, "w") as f:
                 f.write(f'set(CMINX_EXECUTABLE {q(exe)})\ninclude({q(os.path.join(repo_root(), "cmake", "cminx.cmake"))})\n'
                         + first_call +
-                        f'cminx_gen_rst({q(target)} {q(out1 if not rel_out else "rel_out_cmake")} {" ".join(q(e) for e in extra)})\n'
+                        f'cminx_gen_rst({q(target)} {q(out1 if not rel_out else out1_arg)} {" ".join(q(e) for e in extra)})\n'
                         f'file(WRITE {q(marker)} "continued")\n')
             preexisting = rng.random() < 0.4
             if preexisting:
